@@ -81,6 +81,8 @@ pub struct Reader<const H: usize> {
     // Sequential read cache
     read_ahead_buf: ReadAheadBuf,
     flushed_offset: FlushedOffset,
+    // Truncation count of the segment when `read_ahead_buf` was last known to be valid
+    seen_truncations: u64,
     // Decompression buffer (reused across reads to avoid allocations)
     decompress_buf: Vec<u8>,
 }
@@ -118,6 +120,7 @@ impl<const H: usize> Reader<H> {
             optimistic_buf: [0u8; RECORD_HEAD_SIZE + OPTIMISTIC_DATA_SIZE],
             fallback_buf,
             read_ahead_buf: ReadAheadBuf::new(),
+            seen_truncations: flushed_offset.truncations(),
             flushed_offset,
             decompress_buf: Vec::new(),
         };
@@ -135,6 +138,7 @@ impl<const H: usize> Reader<H> {
             fallback_buf: self.fallback_buf,
             read_ahead_buf: ReadAheadBuf::new(),
             flushed_offset: self.flushed_offset.clone(),
+            seen_truncations: self.flushed_offset.truncations(),
             decompress_buf: Vec::new(),
         })
     }
@@ -183,6 +187,13 @@ impl<const H: usize> Reader<H> {
     /// If the data is compressed, it will be automatically decompressed.
     pub fn read_record(&mut self, offset: u64, hint: ReadHint) -> Result<Record<'_, H>, ReadError> {
         let flushed_offset = self.flushed_offset.load();
+        // A truncation makes bytes that were below the flushed offset rewritable: whatever the
+        // read-ahead buffer cached before it may since have been replaced by other records.
+        let truncations = self.flushed_offset.truncations();
+        if truncations != self.seen_truncations {
+            self.read_ahead_buf.invalidate();
+            self.seen_truncations = truncations;
+        }
         if offset + RECORD_HEAD_SIZE as u64 > flushed_offset {
             return Err(ReadError::OutOfBounds {
                 offset,
